@@ -161,6 +161,9 @@ type FnTrans struct {
 	deferredEx []func() string // goal existentials whose instances are chosen at oblige time
 	obWit    []Val           // witness terms named by hypotheses while instantiating for the current obligation
 	deferEx  bool
+	privMaps []*ssa.MakeMap
+	rangeVisited map[*ssa.Range]string // ghost: keys a range-over-map loop has yielded so far
+	rangeDom0    map[*ssa.Range]string // ghost: key set of the map when the iteration started
 	onlyChecks []onlyCheck
 	stableFlds []stableFld
 	concats  [][3]string     // string concatenations translated so far (left, right, result)
